@@ -292,10 +292,10 @@ pub fn run(ctx: &Ctx) -> Verdict {
         "std build; the no_std variant (errors through clones only) is not run in this tier".into(),
     ];
     v.subs.push(super::replay_corpus(ctx));
-    let n = ctx.tier.pick(30_000, 600_000);
+    let n = ctx.tier.pick(60_000, 1_500_000);
     let strat = (gen::scenario(cfg()), vec(0..3u8, 20)).prop_map(|(scn, plan)| ThreadedCase { scn, plan });
     v.subs.push(vcore::run_proptest(ctx, "histories", n, strat, check));
-    let n2 = ctx.tier.pick(300, 6_000);
+    let n2 = ctx.tier.pick(600, 15_000);
     let conc = (2..=8u8, 1..=12u8, any::<u8>()).prop_map(|(threads, per_thread, salt)| ConcurrentCase { threads, per_thread, salt });
     v.subs.push(vcore::run_proptest(ctx, "concurrent", n2, conc, check_concurrent));
     if ctx.tier == vcore::Tier::Thorough {
